@@ -116,6 +116,74 @@ pub use crate::hss::hss_sign_mut as sign_mut;
 pub use crate::hss::hss_verify as verify;
 pub use crate::hss::{SigningKey, VerifyingKey};
 
+/// Verification hooks (guard: `--cfg hbs_lms_verif`). Nothing but re-exports of items that are
+/// already `pub` inside the crate's private modules, so that an external harness crate can drive
+/// the real units (parsers, counters, tables, layers) directly. No new behaviour.
+#[cfg(hbs_lms_verif)]
+#[doc(hidden)]
+pub mod verif_hooks {
+    pub mod constants {
+        pub use crate::constants::*;
+    }
+    pub mod coef {
+        pub use crate::util::coef::*;
+    }
+    pub mod helper {
+        pub use crate::util::helper::*;
+    }
+    pub mod util {
+        pub use crate::util::ArrayVecZeroize;
+    }
+    pub mod hss_aux {
+        pub use crate::hss::aux::*;
+    }
+    pub mod hss_definitions {
+        pub use crate::hss::definitions::*;
+    }
+    pub mod hss_key {
+        pub use crate::hss::reference_impl_private_key::*;
+    }
+    pub mod hss_signing {
+        pub use crate::hss::signing::*;
+    }
+    pub mod hss_seed_derive {
+        pub use crate::hss::SeedDerive;
+    }
+    pub mod hss_verify {
+        pub use crate::hss::verify::*;
+    }
+    pub mod lms {
+        pub use crate::lms::{generate_key_pair, get_tree_element, LmsKeyPair};
+    }
+    pub mod lms_definitions {
+        pub use crate::lms::definitions::*;
+    }
+    pub mod lms_parameters {
+        pub use crate::lms::parameters::*;
+    }
+    pub mod lms_signing {
+        pub use crate::lms::signing::*;
+    }
+    pub mod lms_verify {
+        pub use crate::lms::verify::*;
+    }
+    pub mod lmots_definitions {
+        pub use crate::lm_ots::definitions::*;
+    }
+    pub mod lmots_keygen {
+        pub use crate::lm_ots::keygen::*;
+    }
+    pub mod lmots_parameters {
+        pub use crate::lm_ots::parameters::*;
+    }
+    pub mod lmots_signing {
+        pub use crate::lm_ots::signing::*;
+    }
+    pub mod lmots_verify {
+        pub use crate::lm_ots::verify::*;
+    }
+}
+
 use core::convert::TryFrom;
 use signature::Error;
 use tinyvec::ArrayVec;
